@@ -17,7 +17,8 @@ META = {
     "note": ("Trusted: Lean kernel (axioms propext, Classical.choice, Quot.sound only); extract/c06.go; harness/c06.go (requests and "
              "replies go through the protobuf wire encoding, gateway called in-process); IEEE float add/compare are parameters "
              "of the theorems (instantiated natively in the driver). One swamp per history; streaming RPCs, filters, indexes "
-             "and patches are outside this property. NaN and -0.0 payloads are not generated."),
+             "and patches are outside this property. NaN and -0.0 payloads are not generated. "
+             "NOT COVERED by the theorem: more than one swamp per history and the IslandID dimension (the statement is about one swamp; multi-swamp requests are exercised by the verbs mget / mcount / mdel / mset against the same model, per-swamp independence is not proved); Set values never carry NaN or -0.0 (the setters compare with the float comparison, see harness/c06.go)."),
     "design_ref": "§8 C06, App. F",
 }
 
